@@ -287,6 +287,14 @@ def run_cases(chk, cases, seed):
     return total
 
 
+def safe_describe(chk, case):
+    """describe_case must never be the reason a violation goes unreported"""
+    try:
+        return jsonable(chk.describe_case(case))
+    except Exception as e:
+        return {'case': repr(case)[:500], 'describe_case_failed': repr(e)}
+
+
 def jsonable(x):
     try:
         json.dumps(x)
@@ -356,7 +364,7 @@ def main_check(chk, argv):
         _order, msg, case = slot['examples'][0]
         rec = {'property': pid, 'signature': sig, 'message': msg, 'count': slot['count'],
                'case': chk.encode_case(case) if hasattr(chk, 'encode_case') else jsonable(case),
-               'described': jsonable(chk.describe_case(case))}
+               'described': safe_describe(chk, case)}
         path = os.path.join(OUT, 'replays', pid, '%016x.json' % h64(sig))
         with open(path, 'w') as fh:
             json.dump(rec, fh, indent=1, ensure_ascii=False, default=repr)
@@ -374,7 +382,7 @@ def main_check(chk, argv):
             slot = total['viol'][sig]
             _order, msg, case = slot['examples'][0]
             print('SIG', json.dumps({'signature': sig, 'count': slot['count'],
-                                     'example': jsonable(chk.describe_case(case)), 'msg': str(msg)[:600]},
+                                     'example': safe_describe(chk, case), 'msg': str(msg)[:600]},
                                     ensure_ascii=False, default=repr))
     stale = [s for s in known if s not in total['viol']]
 
@@ -393,7 +401,7 @@ def main_check(chk, argv):
     if 'samples' not in cov:
         plain = [c for c in cases if not is_group(c)] or [next(iter(chk.expand(c))) for c in cases[:5]]
         step = max(1, len(plain) // 5)
-        cov['samples'] = [jsonable(chk.describe_case(plain[(seed + i * step) % len(plain)])) for i in range(min(5, len(plain)))]
+        cov['samples'] = [safe_describe(chk, plain[(seed + i * step) % len(plain)]) for i in range(min(5, len(plain)))]
     if total['timeouts']:
         cov['exhaustive'] = False
     ev = {
